@@ -102,6 +102,27 @@ def content_scripts(tier, rng, tid0):
             ops.append({"o": "loadsynth", "w": 0, "recs": recs, "fmt": "json"})
         scripts.append({"tid": tid, "marker": "simple", "worlds": 1, "ops": ops})
         tid += 1
+    # gaps in the live marker ids: delete an older marked entity, maintain, allocator maintain, mark again
+    for gi in range(40 if tier == "quick" else 400):
+        k = rng.randint(2, 5)
+        ops = [{"o": "create", "w": 0, "a": 60 + i, "b": None} for i in range(k)]
+        ops += [{"o": "mark", "w": 0, "h": i} for i in range(k)]
+        victims = rng.sample(range(k - 1), rng.randint(1, max(1, (k - 1) // 2)))
+        for v in victims:
+            ops.append({"o": rng.choice(["delete", "edelete"]), "w": 0, "h": v})
+        ops.append({"o": "maintain", "w": 0})
+        if gi % 5 != 4:
+            ops.append({"o": "amaintain", "w": 0})
+        for j in range(rng.randint(1, 3)):
+            ops.append({"o": "create", "w": 0, "a": 80 + j, "b": None})
+            if rng.random() < 0.5:
+                ops.append({"o": "set", "w": 0, "h": k + j, "c": "r", "v": [rng.randrange(k + j + 1)]})
+            if gi % 2 == 0:
+                ops.append({"o": "mark", "w": 0, "h": k + j})
+        ops.append({"o": "save", "w": 0, "rec": gi % 2 == 1, "fmt": rng.choice(["json", "ron"])})
+        ops.append({"o": "load", "w": 1, "blob": 0})
+        scripts.append({"tid": tid, "marker": "simple", "worlds": 2, "ops": ops})
+        tid += 1
     return scripts
 
 
